@@ -88,7 +88,10 @@ let () =
           let (hargs, impl_esc) = cut [] rest in
           let args = List.map (fun h -> bytes_of_raw (unhex h)) hargs in
           let impl = unescape impl_esc in
-          let opb = bytes_of_raw op in
+          (* "par_<op>": the answer <op> gave while other threads were calling the library (harness: par_sweep); it
+             is judged exactly like <op> *)
+          let base = if String.length op > 4 && String.sub op 0 4 = "par_" then String.sub op 4 (String.length op - 4) else op in
+          let opb = bytes_of_raw base in
           let model = raw_of_bytes (Oracle.oracle_model opb args) in
           if only_eval then
             Printf.printf "%s\t%s\t=\t%s\n" op (String.concat "\t" hargs) (escape model)
